@@ -11,8 +11,14 @@
   from a freshly constructed SRM with any number of objects and fifos — i.e. all interleavings.
   Caller obligations are explicit: `Srm.WellUsed` (only a handed-out object is posted / released) and one
   thread per `EbFifo` (built into the per-fifo program counter).  Helper lemmas: `Lemmas/Srm.lean`.
+
+  That the C code really executes in such atomic steps is its own obligation: `srm_steps_atomic` /
+  `srm_steps_shape` at the end of this file, over the lock/access table `Gen/SrmLocks.lean` that
+  `xlate/srmlocks.py` regenerates from EbSystemResourceManager.c on every run.
 -/
 import SvtVerif.Lemmas.Srm
+import SvtVerif.Lemmas.LockDiscipline
+import SvtVerif.Gen.SrmLocks
 
 namespace C23
 open Srm
@@ -323,5 +329,84 @@ theorem circbuf_refines_list :
 /-- a 2-slot ring holding `[5]` after wrap-around (head = 1) -/
 example : CircBuf.Rep ((CircBuf.new 2).pushFront 5) [5] :=
   CircBuf.rep_pushFront (CircBuf.rep_new 2 (by decide)) (by decide) (by decide)
+
+/-! ## Step granularity: the C code's critical sections are the model's atomic steps
+
+`Gen.SrmLocks.functions` (regenerated from the C source on every run by `xlate/srmlocks.py`) lists, for every
+non-constructor API function of EbSystemResourceManager.c and every path through it (static helpers inlined, loops
+unrolled 0/1/2 times), the ordered lock / unlock / semaphore / read / write events with the access path of each. -/
+
+/-- **Every shared access is inside its critical section.**  On every path of every API function of the system
+    resource manager: each read or write of a mutex-protected member (`live_count`, `release_enable`; a fifo's
+    `first_ptr` / `last_ptr` / `quit_signal` and the `next_ptr` links of its wrappers; the head / tail / count /
+    slots of a muxing queue's two rings — `LockDiscipline.guardOf` is the protection map) happens while the
+    protecting `lockout_mutex` is held — including reads in initialisers of locals and in inlined callees; members
+    that are immutable after construction are never written; mutexes are named through immutable members only,
+    never taken twice, nested only as queue -> fifo and released in reverse order; every path returns with no mutex
+    held; a loop body leaves the set of held mutexes unchanged (so the unrolled paths speak for any iteration
+    count); `svt_block_on_semaphore` is called with no mutex held.  The only exemptions are the two stores listed
+    and justified in `LockDiscipline.allowed`.
+
+    This is what justifies the granularity of `Srm.step`: under sequentially consistent mutexes, two critical
+    sections of the same mutex never overlap, and code outside critical sections touches no mutable shared member,
+    so every execution of the real functions is equivalent to an interleaving of whole critical sections and
+    semaphore operations — i.e. of model steps.  (Not mechanised: the semantics of pthread mutexes itself, and that
+    the fifo sections nested inside a queue section by `svt_muxing_queue_assignation` commute with the other
+    threads' steps on the same fifo, which is argued from disjointness of the rings and the fifo.)
+    A read of `live_count` moved in front of the lock, an early `return` inside a section, or a new function that
+    touches a ring without the queue mutex makes this `decide` fail. -/
+theorem srm_steps_atomic : ∀ f ∈ Gen.SrmLocks.functions, LockDiscipline.disciplined f = true := by decide
+
+/-- **Declarative reading of `srm_steps_atomic`** (through `LockDiscipline.disciplinedPath_sound`, which is proved
+    for every event list, not only the table's): take any path of any API function and any read (`w = false`) or
+    write (`w = true`) on it of a member whose guard in the protection map is mutex `m` and that is not one of the
+    two allow-listed stores; then among the events *before* the access there is a `lock m` with no `unlock m` after
+    it — the access sits inside a critical section of its own mutex. -/
+theorem srm_access_inside_section {f : LockDiscipline.FnEntry} (hf : f ∈ Gen.SrmLocks.functions)
+    {evs : List LockDiscipline.Ev} (he : evs ∈ f.paths) {pre post : List LockDiscipline.Ev} {w : Bool}
+    {p m : LockDiscipline.Path}
+    (hsplit : evs = pre ++ (if w then LockDiscipline.Ev.write p else LockDiscipline.Ev.read p) :: post)
+    (hg : LockDiscipline.guardOf p = .mutex m) (ha : LockDiscipline.allowed f.fn w p = false) :
+    LockDiscipline.HeldAfter pre m := by
+  have hd := srm_steps_atomic f hf
+  have hp : LockDiscipline.disciplinedPath f.fn evs = true := by
+    simp only [LockDiscipline.disciplined, List.all_eq_true] at hd
+    exact hd evs he
+  exact LockDiscipline.disciplinedPath_sound hp hsplit hg ha
+
+/-- the hypotheses are satisfiable on the table: the read of `live_count` in svt_object_inc_live_count (c368), guarded
+    by the empty queue's mutex, after the four events that evaluate and take that mutex -/
+example : ∃ f ∈ Gen.SrmLocks.functions, ∃ evs ∈ f.paths, ∃ pre post p m,
+    evs = pre ++ (if false then LockDiscipline.Ev.write p else LockDiscipline.Ev.read p) :: post ∧
+    LockDiscipline.guardOf p = .mutex m ∧ LockDiscipline.allowed f.fn false p = false ∧ pre.length = 4 :=
+  ⟨Gen.SrmLocks.inc_live_count, .tail _ (.tail _ (.head _)), Gen.SrmLocks.inc_live_count_path0, .head _,
+   Gen.SrmLocks.inc_live_count_path0.take 4, Gen.SrmLocks.inc_live_count_path0.drop 5,
+   Gen.SrmLocks.inc_live_count_p3, Gen.SrmLocks.inc_live_count_p2, by decide, by decide, by decide, by decide⟩
+
+/-- **The critical sections are the model's steps.**  What other threads can observe of each path — its top-level
+    critical sections (by kind of mutex) and semaphore operations, in order — is exactly the `Srm.Op` sequence the
+    model (and `Driver/Srm.lean`) uses for that function (`LockDiscipline.expectedShape`): one queue section for
+    inc_live_count / release_enable / release_disable / release_object / post_full_object; queue section, semaphore
+    wait, fifo section for get_empty_object / get_full_object; queue section + fifo section (+ the three of
+    get_full_object) for get_full_object_non_blocking; (fifo section, semaphore post)* for shutdown_process. -/
+theorem srm_steps_shape : ∀ f ∈ Gen.SrmLocks.functions, LockDiscipline.atomicBlock f = true := by decide
+
+/-- The table has a row for every API function the discipline names (a function dropped from the table would
+    otherwise pass the two theorems above vacuously). -/
+theorem srm_locks_table_complete (fn : LockDiscipline.Fn) : ∃ e ∈ Gen.SrmLocks.functions, e.fn = fn := by
+  cases fn <;> decide
+
+/-- non-vacuity of the checker itself: the shape of the seeded defect (the count read in front of the lock), an
+    early return inside the section, and the wrong queue's mutex are all rejected; the correct order is accepted. -/
+example :
+    let w : LockDiscipline.Path := ⟨.param 0, .wrapper, []⟩
+    let m := w.extend [.system_resource_ptr, .empty_queue, .lockout_mutex]
+    let mFull := w.extend [.system_resource_ptr, .full_queue, .lockout_mutex]
+    let lc := w.extend [.live_count]
+    LockDiscipline.disciplinedPath .inc_live_count [.lock m, .read lc, .write lc, .unlock m] = true ∧
+    LockDiscipline.disciplinedPath .inc_live_count [.read lc, .lock m, .write lc, .unlock m] = false ∧
+    LockDiscipline.disciplinedPath .inc_live_count [.lock m, .read lc, .write lc] = false ∧
+    LockDiscipline.disciplinedPath .inc_live_count [.lock mFull, .read lc, .write lc, .unlock mFull] = false := by
+  decide
 
 end C23
